@@ -212,7 +212,7 @@ def _expected_decoding(v):
 def body_E1(ctx):
     sh = ctx.shard
     which = ctx.choose(len(CORNERS) + len(RICH) + 1, "value class")
-    depth = [0, 1, 3, sh.get("deep", 50), 300][ctx.choose(5, "nesting")]
+    depth = [0, 1, 3, sh.get("deep", 50), 250, 300][ctx.choose(6, "nesting")]
     as_dict = ctx.flag("nest in dicts")
     custom = False
     if which < len(CORNERS):
@@ -345,6 +345,6 @@ OBLIGATIONS = [
         shards={"quick": [{"deep": 50}], "thorough": [{"deep": 50}, {"deep": 200}]},
         twin=[{"deep": 50, "twin_label": "rich-nested"}],
         timeout={"quick": 100, "thorough": 300},
-        bounds={"quick": "22 JSON-native corner classes + 8 rich values (path, date, time, 4 sets, complex) + custom json_default, nesting depth {0,1,3,50,300} in lists or dicts, binary and text files, made by FileDestination(json_default=) / FileDestination(encoder=) / to_file() / over a codecs.getwriter text stream - witnesses per class, not a for-all claim"},
+        bounds={"quick": "22 JSON-native corner classes + 8 rich values (path, date, time, 4 sets, complex) + custom json_default, nesting depth {0,1,3,50,250,300} in lists or dicts, binary and text files, made by FileDestination(json_default=) / FileDestination(encoder=) / to_file() / over a codecs.getwriter text stream - witnesses per class, not a for-all claim"},
     ),
 ]
